@@ -212,7 +212,11 @@ def cfg_case(ctx, g, rng, index):
     P_day = np.asarray(lib["P"].to_value(u.day), dtype=float)
     mi = ctx.model({"op": "mcmc.median", "P": bits_list(P_day)})["idx"]
     # the row the implementation chose: match on all nonlinear columns
-    if set(init.keys()) != set(names) or any(np.ndim(v) != 0 for v in init.values()):
+    init_raw = dict(init)
+    extra_keys = sorted(set(init.keys()) - set(names))
+    # keys beyond the prior's parameters may only name variables of the model (start values of auxiliary free variables)
+    bad_extra = [k_ for k_ in extra_keys if k_ not in model.named_vars]
+    if not set(names) <= set(init.keys()) or bad_extra or any(np.ndim(init[n_]) != 0 for n_ in names if n_ in init):
         violate(ctx, REL_INIT, g, dict(cfg_desc, periods_day=P_day.tolist()), {k: np.asarray(v).tolist() for k, v in init.items()},
                 dict(model_idx=mi), "mcmc_init must hold one scalar per prior parameter (a single member row)", tags=dict(tags0, where="init-shape"))
         init = {n: np.ravel(init.get(n, np.nan))[0] for n in names}
@@ -222,7 +226,7 @@ def cfg_case(ctx, g, rng, index):
     ctx.count("init:N=1" if N == 1 else "init:N>1")
     if N == 2:
         ctx.count("init:N=2")
-    if not cand or set(init.keys()) != set(names):
+    if not cand or not set(names) <= set(init.keys()):
         violate(ctx, REL_INIT, g, dict(cfg_desc, periods_day=P_day.tolist()), {k: float(v) for k, v in init.items()},
                       dict(model_idx=mi, expected_row={n: float(lib[n][mi].to_value(un[n])) for n in names}),
                       "mcmc_init must be an actual member row expressed in the prior's units (all parameters)", tags=dict(tags0, where="init-row"))
@@ -231,6 +235,93 @@ def cfg_case(ctx, g, rng, index):
                       dict(model_idx=mi, kth_period=kth), "the chosen row's period must be the floor(N/2)-th order statistic", tags=dict(tags0, where="init-median"))
     elif mi not in cand and len(set(P_day.tolist())) == N:
         ctx.mismatch(REL_INIT, g, cfg_desc, dict(chosen_rows=cand), dict(model_idx=mi), "model picks another row although periods are distinct")
+
+    # ---------------- the point pymc starts from when handed mcmc_init -----------------------------------------
+    # (pm.sample(initvals=mcmc_init) builds its start point with make_initial_point_fn(overrides=mcmc_init), which only
+    # looks at FREE variables: a value for a parameter that is a Deterministic of auxiliary free variables - the default
+    # prior's omega and M0 - is dropped silently unless the dict also starts those auxiliary variables)
+    REL_START = "start point pymc builds from mcmc_init=the chosen sample (all parameters that the model lets one set)"
+    try:
+        from pymc.initial_point import make_initial_point_fn
+        with fast():
+            ip = make_initial_point_fn(model=model, overrides=dict(init_raw), jitter_rvs=set(), return_transformed=True)(0)
+            fpar = model.compile_fn(model.replace_rvs_by_values([pr.prior.pars[n_] for n_ in names]), inputs=model.value_vars,
+                                    on_unused_input="ignore")
+        start = dict(zip(names, [float(np.asarray(v_)) for v_ in fpar({k_: ip[k_] for k_ in [vv_.name for vv_ in model.value_vars]})]))
+        start_err = None
+    except Exception as e_:  # noqa: BLE001
+        start, start_err = None, f"{type(e_).__name__}: {str(e_)[:200]}"
+    free_names = {rv_.name for rv_ in model.free_RVs}
+    settable = [n_ for n_ in names if n_ in free_names or f"__{n_}_angle1" in free_names]
+    ctx.evaluated(REL_START, (index,), sample=dict(cfg_desc, start=start, init={k_: float(np.ravel(v_)[0]) for k_, v_ in init_raw.items()}))
+    ctx.count("start:parameters behind auxiliary angle variables", sum(1 for n_ in settable if n_ not in free_names))
+    if start is None:
+        violate(ctx, REL_START, g, cfg_desc, dict(error=start_err), None, "pymc must be able to build its start point from mcmc_init",
+                tags=dict(tags0, where="start-point"))
+    else:
+        def off(n_):
+            d_ = start[n_] - float(init[n_])
+            if n_ in ("omega", "M0"):
+                per = TWO_PI / float(un[n_].to(u.rad))
+                d_ = (d_ + per / 2) % per - per / 2
+            return abs(d_)
+        wrong = {n_: dict(start=start[n_], mcmc_init=float(init[n_])) for n_ in settable if n_ in init and not off(n_) <= 1e-9 * (1 + abs(float(init[n_])))}
+        if wrong:
+            violate(ctx, REL_START, g, dict(cfg_desc, mcmc_init={k_: float(np.ravel(v_)[0]) for k_, v_ in init_raw.items()},
+                                           free_variables=sorted(free_names)), wrong, None,
+                    "handed to pymc as initvals, mcmc_init must start the chain AT the chosen sample: these parameters start elsewhere "
+                    "(a key naming a Deterministic is ignored by pymc; the free variables behind it need start values)",
+                    tags=dict(tags0, where="start-point"))
+
+    # ---------------- call history: samples that carry another reference epoch than the data ----------------------
+    if index % 2 == 1:
+        from astropy.time import Time
+        REL_TREF = "setup_mcmc with samples whose t_ref differs from the data's: refused, or the point describes the same orbit"
+        all_data0, _, _ = validate_prepare_data(pr.data, pr.p, pr.q)
+        t0_ = np.asarray(all_data0._t_bmjd, dtype=float)
+        tref_data = float(all_data0._t_ref_bmjd)
+        same = index % 4 == 3
+        delta = 0.0 if same else float(rng.choice([-1, 1]) * rng.uniform(3.0, 40.0))
+        lib2 = lib.copy()
+        lib2.tbl.meta["t_ref"] = Time(tref_data + delta, format="mjd", scale="tcb")
+        refused2 = None
+        with fast():
+            try:
+                with model:
+                    init2 = joker.setup_mcmc(pr.data, lib2)
+            except Exception as e_:  # noqa: BLE001
+                refused2, init2 = f"{type(e_).__name__}: {str(e_)[:160]}", None
+        ctx.evaluated(REL_TREF, (index, same))
+        ctx.count("tref-history:same epoch stated explicitly" if same else "tref-history:other epoch")
+        inp2 = dict(cfg_desc, samples_t_ref_minus_data_t_ref_days=delta)
+        if same:
+            if refused2 is not None or any(abs(float(np.ravel(init2[n_])[0]) - float(init[n_])) > 1e-12 * (1 + abs(float(init[n_]))) for n_ in names):
+                violate(ctx, REL_TREF, g, inp2, dict(refused=refused2, init=None if init2 is None else {n_: float(np.ravel(init2[n_])[0]) for n_ in names}),
+                        dict(init={n_: float(init[n_]) for n_ in names}),
+                        "samples that state the data's own reference epoch must give the same initial point as samples without one",
+                        tags=dict(tags0, where="tref-same"))
+        elif refused2 is not None:
+            ctx.count("tref-history:refused")
+        else:
+            ctx.count("tref-history:accepted")
+
+            def curve(vals, tref_):
+                P_d_ = vals["P"] * uf["cP"]
+                kc_ = scen.kepler_column(t0_, P_d_, vals["e"], vals["omega"] * uf["cOmega"], vals["M0"] * uf["cM0"], tref_)
+                xl_ = [vals["v0"] * uf["cV"][0]] + [vals[f"dv0_{j+1}"] * uf["cDv"][j] for j in range(pr.q)] + [vals[f"v{l}"] * uf["cV"][l] for l in range(1, pr.p)]
+                return vals["K"] * uf["cK"] * kc_ + pr.trend_matrix(t0_, np.asarray(all_lab_), tref_) @ np.array(xl_)
+            # labels in the order of the merged, time-sorted data (disjoint surveys)
+            all_lab_ = pr.merged()[3]
+            if len(all_lab_) == len(t0_):
+                row = {n_: float(init[n_]) for n_ in names}
+                want_curve = curve(row, tref_data + delta)        # the chosen sample's own orbit (its epoch)
+                got_curve = curve({n_: float(np.ravel(init2[n_])[0]) for n_ in names}, tref_data)   # what the model will make of the point
+                gap = float(np.max(np.abs(want_curve - got_curve)))
+                if gap > 1e-7 * (1 + abs(row["K"] * uf["cK"]) + float(np.max(np.abs(want_curve)))):
+                    violate(ctx, REL_TREF, g, inp2, dict(init={n_: float(np.ravel(init2[n_])[0]) for n_ in names}, max_rv_gap=gap),
+                            dict(sample_row=row), "the samples' M0 (and trend coefficients) refer to the samples' t_ref; the model is built "
+                            "about the data's t_ref: the returned point must describe the same orbit there, or the call must refuse",
+                            tags=dict(tags0, where="tref-other"))
 
     # ---------------- the sampler's own model -----------------------------------------------------
     all_data, ids, trend_M = validate_prepare_data(pr.data, pr.p, pr.q)
@@ -399,6 +490,81 @@ def cfg_case(ctx, g, rng, index):
                         "term of data_B (or the call must refuse): it is still that of data_A", tags=dict(tags0, where="second-call"))
 
 
+def eunit_case(ctx, g, rng, index):
+    """the eccentricity prior declared in per cent (JokerPrior accepts any unit convertible to dimensionless; the sampler
+    converts): the pymc model must not depend on the declaration.  Metamorphic: the same model with e in u.one."""
+    import astropy.units as u
+    import pymc as pm
+    import thejoker as tj
+    import thejoker.units as xu
+    from astropy.time import Time
+    REL = "setup_mcmc model is the same whichever unit the eccentricity prior is declared in (one / per cent)"
+    fcm = index % 2 == 0
+    n = int(rng.integers(5, 10))
+    t = 58000.0 + np.sort(rng.uniform(0, 200, n))
+    data = tj.RVData(Time(t, format="mjd", scale="tcb"), rng.normal(0, 5, n) * u.km / u.s, rng.uniform(0.1, 1.0, n) * u.km / u.s)
+    e0 = float(rng.uniform(0.05, 0.8))
+    phys = [dict(P=float(rng.uniform(3, 200)), e=float(rng.uniform(0.05, 0.9)), omega=float(rng.uniform(-3, 3)), M0=float(rng.uniform(-3, 3)),
+                 K=float(rng.normal(0, 10)), v0=float(rng.normal(0, 10))) for _ in range(3)]
+    res = {}
+    inp = dict(K_prior="FixedCompanionMass" if fcm else "Normal", n_epochs=n, sample_e=e0, points=phys)
+    ctx.evaluated(REL, (index,))
+    ctx.count("eunit:" + inp["K_prior"])
+    for unit, scale in ((u.one, 1.0), (u.percent, 100.0)):
+        try:
+            with fast():
+                with pm.Model() as model:
+                    pars = {"e": xu.with_unit(pm.Uniform("e", 0.0, 0.95 * scale), unit)}
+                    if not fcm:
+                        pars["K"] = xu.with_unit(pm.Normal("K", 0.0, 20.0), u.km / u.s)
+                    prior = tj.JokerPrior.default(P_min=2 * u.day, P_max=256 * u.day, sigma_K0=30 * u.km / u.s, sigma_v=100 * u.km / u.s, pars=pars)
+                joker = tj.TheJoker(prior, rng=np.random.default_rng(1))
+                smp = tj.JokerSamples(t_ref=data.t_ref)
+                smp["P"] = [17.3] * u.day
+                smp["e"] = [e0] * u.one
+                smp["omega"] = [1.1] * u.rad
+                smp["M0"] = [2.2] * u.rad
+                smp["s"] = [0.0] * u.km / u.s
+                smp["K"] = [8.0] * u.km / u.s
+                smp["v0"] = [3.0] * u.km / u.s
+                with model:
+                    init = joker.setup_mcmc(data, smp)
+                f = model.compile_fn(model.replace_rvs_by_values([model["model_rv"], model["ln_likelihood"], model["logp"]]),
+                                     inputs=model.value_vars, on_unused_input="ignore")
+                outs = []
+                for th in phys:
+                    th2 = dict(th, e=th["e"] * scale, s=0.0)
+                    o = f(value_point(model, th2))
+                    outs.append((np.asarray(o[0], dtype=float).ravel(), float(o[1]), float(o[2])))
+            res[str(unit)] = dict(init_e=float(np.ravel(init["e"])[0]), outs=outs)
+        except Exception as e_:  # noqa: BLE001
+            res[str(unit)] = dict(error=f"{type(e_).__name__}: {str(e_)[:200]}")
+    a, b = res[str(u.one)], res[str(u.percent)]
+    tags = dict(call="setup_mcmc", where="e-unit", custom_units=True)
+    if "error" in a:
+        raise core_mod.Infra("reference model (e in u.one) failed: " + a["error"])
+    if "error" in b:
+        violate(ctx, REL, g, inp, dict(percent=b), None, "a prior with e declared in per cent is accepted by JokerPrior and the sampler; "
+                "setup_mcmc / evaluating its model must work as well", tags=tags)
+        return
+    bad = []
+    if abs(b["init_e"] - 100.0 * a["init_e"]) > 1e-9:
+        bad.append(f"mcmc_init e: {b['init_e']} (per cent) vs {a['init_e']} (one)")
+    for k, (oa, ob) in enumerate(zip(a["outs"], b["outs"])):
+        if oa[0].shape != ob[0].shape or float(np.max(np.abs(oa[0] - ob[0]))) > 1e-8 * (1 + float(np.max(np.abs(oa[0])))):
+            bad.append(f"model_rv at point {k}: max gap {float(np.max(np.abs(oa[0] - ob[0]))):.3g}")
+        if not abs(oa[1] - ob[1]) <= 1e-8 * (1 + abs(oa[1])):
+            bad.append(f"ln_likelihood at point {k}: {ob[1]} vs {oa[1]}")
+    # the log-density may differ by ONE constant (the density of e per per cent)
+    da = [oa[2] - a["outs"][0][2] for oa in a["outs"]]
+    db = [ob[2] - b["outs"][0][2] for ob in b["outs"]]
+    if not all(abs(x - y) <= 1e-8 * (1 + abs(x)) for x, y in zip(da, db)):
+        bad.append(f"logp differences between points: {db} (per cent) vs {da} (one)")
+    if bad:
+        violate(ctx, REL, g, inp, dict(differences=bad), None, "model_rv, ln_likelihood and the log-density (up to one constant) must not "
+                "depend on the unit the eccentricity prior is declared in", tags=tags)
+
+
 def median_case(ctx, g, rng):
     """JokerSamples.median_period against Mcmc.medianIdx on many small libraries (ties included)"""
     import astropy.units as u
@@ -439,6 +605,7 @@ def median_case(ctx, g, rng):
 def plan(ctx):
     cases = [("cfg", i) for i in range(250 if ctx.thorough else 20)]
     cases += [("median", i) for i in range(3000 if ctx.thorough else 200)]
+    cases += [("eunit", i) for i in range(12 if ctx.thorough else 2)]
     return cases
 
 
@@ -453,6 +620,8 @@ def run_case(ctx, g):
         cfg_case(ctx, g, rng, index)
     elif kind == "median":
         median_case(ctx, g, rng)
+    elif kind == "eunit":
+        eunit_case(ctx, g, rng, index)
 
 
 def post(ctx):
@@ -461,6 +630,10 @@ def post(ctx):
     c = ctx.counters
     ctx.rule = RULE
     ctx.extra["exhaustive"] = False
+    ctx.require("start points with parameters behind auxiliary angle variables", c["start:parameters behind auxiliary angle variables"], 10)
+    ctx.require("samples carrying another reference epoch than the data", c["tref-history:other epoch"], 3)
+    ctx.require("samples stating the data's own reference epoch", c["tref-history:same epoch stated explicitly"], 3)
+    ctx.require("eccentricity prior declared in per cent", c["eunit:FixedCompanionMass"] + c["eunit:Normal"], 2)
     ctx.require("configurations with custom units", c["cfg:custom-units"], 8)
     ctx.require("configurations with canonical units", c["cfg:canonical-units"], 3)
     ctx.require("P prior not in days", c["cfg:P-not-day"], 3)
